@@ -20,7 +20,8 @@ theorem translated_ok : ∀ n ∈ [
     "ipmi.V1Session", "ipmi.GetSessionInfoRsp", "ipmi.SessionSelector", "ipmi.OpenSessionRsp",
     "dcmi.GetDCMICapabilitiesInfoManageabilityAccessAttrsRsp", "dcmi.GetDCMICapabilitiesInfoOptionalPlatformAttrsRsp",
     "dcmi.GetDCMICapabilitiesInfoSupportedCapabilitiesRsp", "dcmi.GetDCMICapabilitiesInfoMandatoryPlatformAttrsRsp",
-    "ipmi.Message", "dcmi.GetDCMICapabilitiesInfoEnhancedSystemPowerStatisticsAttrsRsp", "dcmi.GetDCMISensorInfoRsp"],
+    "ipmi.Message", "dcmi.GetDCMICapabilitiesInfoEnhancedSystemPowerStatisticsAttrsRsp", "dcmi.GetDCMISensorInfoRsp",
+    "ipmi.FullSensorRecord", "ipmi.V2Session", "ipmi.AES128CBC", "bmc.parseCipherSuiteRecordData"],
     n ∈ Bmc.Gen.Dec.translated := by decide
 
 end Bmc.Proofs.GenDec
